@@ -13,7 +13,9 @@ static const int64_t SITE_FOPEN = 1000000000ll, SITE_DCTX = 2000000000ll;
 struct Outcome { bool error_reported = false; };
 
 // ---- scenario bodies; each must clean up after any error and throw only on oracle violations
-void sc_schema(int ncols, Outcome& out) {
+// pad > 0: names of that many bytes, so that the schema's name arena outgrows its first block (a further allocation site)
+void sc_schema(int ncols, int pad, Outcome& out) {
+    auto colname = [&](int i) { std::string n = "col" + std::to_string(i); if (pad > 0 && (int)n.size() < pad) n += std::string((size_t)pad - n.size(), (char)('a' + i % 26)); return n; };
     carquet_error_t err = CARQUET_ERROR_INIT; memset(err.message, 0x7F, sizeof err.message);
     carquet_schema_t* s = cq::schema_create(&err);
     if (!s) { exec::check_error_struct(err, "schema_create"); out.error_reported = true; return; }
@@ -21,7 +23,7 @@ void sc_schema(int ncols, Outcome& out) {
     // and every add that reported success must have exactly its fault-free effect
     std::vector<int> ok_cols;
     for (int i = 0; i < ncols; i++) {
-        std::string name = "col" + std::to_string(i);
+        std::string name = colname(i);
         carquet_status_t st = cq::schema_add_column(s, name.c_str(), (carquet_physical_type_t)gen::WRITABLE[i % 7], nullptr, (carquet_field_repetition_t)(i % 2), gen::WRITABLE[i % 7] == T_FLBA ? 5 : 0);
         if (st != CARQUET_OK) out.error_reported = true; else ok_cols.push_back(i);
         if (i % 17 == 16) { int32_t g = cq::schema_add_group(s, ("g" + std::to_string(i)).c_str(), CARQUET_REPETITION_OPTIONAL, 0); if (g < 0) out.error_reported = true; }
@@ -30,7 +32,7 @@ void sc_schema(int ncols, Outcome& out) {
     SIM_CHECK(carquet_schema_num_columns(s) == (int32_t)ok_cols.size(), "alloc.schema_corrupted", "schema reports %d columns after %zu successful add_column calls", carquet_schema_num_columns(s), ok_cols.size());
     for (size_t k = 0; k < ok_cols.size(); k++) {
         int i = ok_cols[k];
-        std::string name = "col" + std::to_string(i);
+        std::string name = colname(i);
         int32_t idx = carquet_schema_find_column(s, name.c_str());
         SIM_CHECK(idx == (int32_t)k, "alloc.schema_corrupted", "find_column('%s') returned %d, it is leaf %zu (an allocation failed during an earlier or later add)", name.c_str(), idx, k);
     }
@@ -42,8 +44,9 @@ void sc_schema(int ncols, Outcome& out) {
         if (!carquet_schema_node_is_leaf(nd)) continue;
         SIM_CHECK(k < ok_cols.size(), "alloc.schema_corrupted", "more leaf elements than successful add_column calls");
         int i = ok_cols[k++];
-        SIM_CHECK(("col" + std::to_string(i)) == carquet_schema_node_name(nd) && (int)carquet_schema_node_physical_type(nd) == gen::WRITABLE[i % 7] && (int)carquet_schema_node_repetition(nd) == i % 2 && carquet_schema_node_max_def_level(nd) == i % 2,
-                  "alloc.schema_corrupted", "leaf element %d: name '%s' type %d repetition %d max_def %d, added as col%d type %d repetition %d", e, carquet_schema_node_name(nd), (int)carquet_schema_node_physical_type(nd), (int)carquet_schema_node_repetition(nd), (int)carquet_schema_node_max_def_level(nd), i, gen::WRITABLE[i % 7], i % 2);
+        SIM_CHECK(carquet_schema_node_name(nd) != nullptr, "alloc.schema_corrupted", "leaf element %d (added as col%d, add_column returned OK) has a NULL name", e, i);
+        SIM_CHECK(colname(i) == carquet_schema_node_name(nd) && (int)carquet_schema_node_physical_type(nd) == gen::WRITABLE[i % 7] && (int)carquet_schema_node_repetition(nd) == i % 2 && carquet_schema_node_max_def_level(nd) == i % 2,
+                  "alloc.schema_corrupted", "leaf element %d: name '%.40s' type %d repetition %d max_def %d, added as col%d type %d repetition %d", e, carquet_schema_node_name(nd), (int)carquet_schema_node_physical_type(nd), (int)carquet_schema_node_repetition(nd), (int)carquet_schema_node_max_def_level(nd), i, gen::WRITABLE[i % 7], i % 2);
       }
       SIM_CHECK(k == ok_cols.size(), "alloc.schema_corrupted", "%zu leaf elements, %zu successful add_column calls", k, ok_cols.size()); }
     cq::schema_free(s);
@@ -98,7 +101,8 @@ void run_c19(sim::RunCtx& ctx) {
     gen::WritePlan p; validfile::VF vf; readhist::BatchCfg cfg; int ncols = 0, mode = 0;
     std::vector<uint8_t> dry_image;
     bool multi = ctx.thorough && sim::draw(4) == 3;       // thorough tier: also seeded multi-failure runs
-    if (kind == S_SCHEMA) { ncols = 1 + (int)sim::draw(140); ctx.sample = sim::fmt("schema build with %d columns (+groups)", ncols); ctx.shape = sim::fnv(&ncols, 4) ^ 1; ctx.nontrivial = true; }
+    int pad = 0;
+    if (kind == S_SCHEMA) { ncols = 1 + (int)sim::draw(140); if (sim::draw(3) == 2) { pad = 300 + (int)sim::draw(700); ncols = 60 + (int)sim::draw(120); } ctx.sample = sim::fmt("schema build with %d columns (+groups), names of %d bytes", ncols, pad ? pad : 5); ctx.shape = sim::fnv(&ncols, 4) ^ 1 ^ ((uint64_t)(pad != 0) << 20); ctx.nontrivial = true; }
     else if (kind == S_WRITE) {
         gen::FlatOpts fo; fo.allow_big = false; fo.allow_wide = false; fo.max_cols = 5; fo.max_rgs = 2;
         if (sim::draw(5) == 4) { fo.max_cols = 30; gen::g_row_cap = 12; }     // footers beyond one buffer growth step: allocation failures inside string payloads
@@ -119,7 +123,7 @@ void run_c19(sim::RunCtx& ctx) {
     auto restore_disk = [&]() { sim::D.files.clear(); for (auto& kv : disk0) sim::disk_put(kv.first, kv.second); };
     auto body = [&](Outcome& out, int on_error) {
         switch (kind) {
-            case S_SCHEMA: sc_schema(ncols, out); break;
+            case S_SCHEMA: sc_schema(ncols, pad, out); break;
             case S_WRITE: sc_write(p, path, dry_image, on_error, out); break;
             case S_READ: sc_read(vf, path, mode, out); break;
             default: sc_batch(vf, path, mode, cfg, out); break;
